@@ -137,6 +137,13 @@ static std::string build_http(FuzzedDataProvider &fdp, std::string const &tag) {
         else if (bk == 2 || bk == 3) { ctype = "multipart/form-data; boundary=" + (fdp.ConsumeBool() ? boundary : "\"" + boundary + "\""); body = mp_body(fdp, boundary); }
         else if (bk == 4) { ctype = fdp.ConsumeBool() ? "text/plain" : "multipart/form-data"; body = fdp.ConsumeRandomLengthString(300); }
         else if (bk == 5) { ctype = "application/octet-stream"; body.assign((size_t)fdp.ConsumeIntegralInRange<int>(0, 70000), 'x'); }
+        // occasionally a large number of (well-formed) header lines: tables keyed by header count grow and, on a kept-alive
+        // connection, are re-used by the next request
+        if (fdp.ConsumeIntegralInRange<int>(0, 9) == 0) {
+            int many = fdp.ConsumeIntegralInRange<int>(40, 150);
+            for (int i = 0; i < many; i++) out += "X-H" + std::to_string(i) + ": v" + std::to_string(i % 7) + "\r\n";
+            out += "Connection: keep-alive\r\n";
+        }
         int nh = fdp.ConsumeIntegralInRange<int>(0, 4);
         for (int i = 0; i < nh; i++) {
             switch (fdp.ConsumeIntegralInRange<int>(0, 7)) {
